@@ -39,6 +39,8 @@ def status_of_expr(v):
 def run(chk, facts, tier):
     chk.rule('status-table', 'local_device_pairing_status: no_key unless state() == pairing_completed; otherwise unauthenticated_key exactly for just_works and authenticated_key for the authenticated methods', floor=3)
     chk.rule('status-recorded-at-completion', 'security_connection_data records pairing_status_ in legacy/lesc_pairing_completed from the algorithm of the exchange that completed', floor=2)
+    chk.rule('completion-waits-for-user', 'every call of lesc_check_dhkey_and_complete_pairing (verifies Ea, records the authenticated key) is excluded while the user is still asked or has refused: '
+             'it is control dependent on state() != user_response_wait and != user_response_failed, or on state() == user_response_success', floor=2)
     chk.rule('authenticated-methods-implemented', 'every LESC algorithm that is reported as authenticated_key is distinguished by a branch in the LESC handlers (its own exchange is implemented)', floor=2)
     D = 'bluetoe::details::'
     for cls in ('legacy_security_connection_data', 'lesc_security_connection_data', 'security_connection_data'):
@@ -120,3 +122,12 @@ def run(chk, facts, tier):
         ok = a in branched
         chk.obligation('authenticated-methods-implemented', 'security_manager_base lesc_* handlers', 'lesc_pairing_algorithm::%s selectable and reported authenticated; distinguishing branch: %s' % (a, ok), ok,
                        '' if ok else 'the handlers run the same (Just Works) exchange for %s but the completed pairing is reported as authenticated_key' % a, key='lesc ' + a)
+    for fn in facts.functions:
+        if fn.kind not in ('pattern', 'plain') or not fn.q.startswith('bluetoe::details::security_manager_base::'):
+            continue
+        for c in fn.body.calls('lesc_check_dhkey_and_complete_pairing'):
+            eq, ne = state_eq_atoms(guard_atoms(fn, c))
+            ok = 'user_response_success' in eq or 'lesc_pairing_random_exchanged' in eq or {'user_response_wait', 'user_response_failed'} <= ne
+            chk.instance('completion-waits-for-user', fn, 'lesc_check_dhkey_and_complete_pairing() in %s under state == %s / != %s' % (fn.name, sorted(eq), sorted(ne)), ok,
+                         '' if ok else 'the DHKey check is verified and the pairing completed as authenticated while the numeric comparison / passkey is still waiting for (or was refused by) the user', node=c, key='complete in ' + fn.name)
+
